@@ -667,5 +667,448 @@ theorem parseFormat_partOk {s : Str} {ps : List FmtPart} (h : parseFormat s = .o
       · trivial
       · exact ih hp q hq
 
+/-! ### the parser against `Spec.wellformed` -/
+
+theorem wf_zero (seen prev : Bool) (s : Str) :
+    wellformedAux 0 seen prev s = wellformedAux 0 false false s := by
+  induction s generalizing seen prev with
+  | nil => simp [wellformedAux]
+  | cons c r ih =>
+    simp only [wellformedAux]
+    split
+    · simp
+    · split
+      · simp
+      · simp only [Nat.zero_ne_one, false_and, if_false]
+        rw [ih seen false, ih false false]
+
+theorem wf_prev {d : Nat} {seen : Bool} {s : Str} (h : ∀ c r, s = c :: r → isAlpha c = false) :
+    wellformedAux d seen true s = wellformedAux d seen false s := by
+  cases s with
+  | nil => simp [wellformedAux]
+  | cons c r =>
+    have := h c r rfl
+    simp [wellformedAux, this]
+
+theorem wf_verbatim (d : Nat) (seen prev : Bool) (r : Str) :
+    wellformedAux (d + 1) seen (if d = 0 then false else prev) r =
+      wellformedAux 1 seen false (verbatim d r).2 := by
+  induction r generalizing d prev with
+  | nil => simp [verbatim_nil, wellformedAux]
+  | cons c r ih =>
+    cases d with
+    | zero =>
+      simp only [if_true]
+      by_cases ho : c = '{'
+      · subst ho
+        rw [verbatim_zero_open]
+        simp only [wellformedAux, if_true]
+        have := ih 1 false
+        simpa using this
+      · by_cases hv : isVerbChar c = true
+        · rw [verbatim_zero_verb _ hv]
+          have h2 : c ≠ '}' := by rintro rfl; revert hv; decide
+          have h3 : c ≠ '_' := by rintro rfl; revert hv; decide
+          have h4 : isAlpha c = false := by
+            cases h : isAlpha c
+            · rfl
+            · rw [isAlpha_not_verb h] at hv; cases hv
+          simp only [wellformedAux, ho, h2, h3, h4, if_false, and_false, Bool.false_eq_true]
+          have := ih 0 false
+          simpa using this
+        · have hv' : isVerbChar c = false := by simpa using hv
+          rw [verbatim_zero_stop _ ho hv']
+    | succ d =>
+      rw [verbatim_succ]
+      simp only [Nat.add_one_ne_zero, if_false]
+      by_cases ho : c = '{'
+      · subst ho
+        simp only [wellformedAux, if_true]
+        have := ih (d + 2) false
+        simpa using this
+      · by_cases hc : c = '}'
+        · subst hc
+          simp only [wellformedAux, ho, if_false, if_true]
+          have := ih d false
+          simp only [Bool.if_false_right] at this
+          simp only [Nat.add_sub_cancel]
+          rw [← this]
+          cases d <;> simp
+        · simp only [wellformedAux, ho, hc, if_false]
+          have h1 : ¬ (d + 1 + 1 = 1) := by omega
+          simp only [h1, false_and, if_false]
+          have := ih (d + 1) false
+          simpa using this
+
+theorem wf_letters (l r : Str) (h : ∀ c ∈ l, isAlpha c = true) :
+    wellformedAux 1 true true (l ++ r) = wellformedAux 1 true true r := by
+  induction l with
+  | nil => rfl
+  | cons c l ih =>
+    have hc := h c (by simp)
+    simp only [List.cons_append, wellformedAux, isAlpha_ne_open hc, isAlpha_ne_close hc, if_false,
+      hc, and_self, if_true, Bool.true_or, Bool.true_and]
+    exact ih (fun x hx => h x (by simp [hx]))
+
+theorem formatCharsOk_true (run : Str) : formatCharsOk true run = false := by
+  simp [formatCharsOk]
+
+theorem formatCharsOk_eq (run : Str) : formatCharsOk false run = legalLetters run := by
+  unfold formatCharsOk legalLetters
+  generalize lower run = v
+  match v with
+  | [] => decide
+  | [a] =>
+    simp only [List.length_cons, List.length_nil, List.head?_cons, List.getLast?_singleton]
+    by_cases h1 : a = 'f'
+    · subst h1; decide
+    · by_cases h2 : a = 'l'
+      · subst h2; decide
+      · by_cases h3 : a = 'v'
+        · subst h3; decide
+        · by_cases h4 : a = 'j'
+          · subst h4; decide
+          · simp [h1, h2, h3, h4]
+  | [a, b] =>
+    simp only [List.length_cons, List.length_nil, List.head?_cons]
+    have : [a, b].getLast? = some b := by simp
+    rw [this]
+    by_cases hab : a = b
+    · subst hab
+      by_cases h1 : a = 'f'
+      · subst h1; decide
+      · by_cases h2 : a = 'l'
+        · subst h2; decide
+        · by_cases h3 : a = 'v'
+          · subst h3; decide
+          · by_cases h4 : a = 'j'
+            · subst h4; decide
+            · simp [h1, h2, h3, h4]
+    · simp [hab]
+      refine ⟨?_, ?_, ?_, ?_⟩ <;> (intro h1 h2; exact hab (h1.trans h2.symm))
+  | a :: b :: c :: r =>
+    simp
+
+theorem dropWhile_head {α} {p : α → Bool} {l : List α} {a : α} {x : List α}
+    (h : l.dropWhile p = a :: x) : p a = false := by
+  induction l with
+  | nil => simp at h
+  | cons b l ih =>
+    simp only [List.dropWhile_cons] at h
+    split at h
+    · exact ih h
+    · rename_i hb; cases h; simpa using hb
+
+def okRest : Except FmtErr (FmtPart × Str) → Bool
+  | .ok (_, rest) => wellformed rest
+  | .error _ => false
+
+theorem wf_closed2 (s pre f : Str) (delim : Option Str) (post : Str) :
+    wellformedAux 1 true false s = okRest (closed2 s pre f delim post) := by
+  have h := wf_verbatim 0 true false s
+  simp only [if_true] at h
+  rw [h]
+  unfold closed2
+  rcases verbatim_stop 0 s with h0 | ⟨c, r, h0, h1, h2⟩
+  · rw [h0]; simp [wellformedAux, okRest]
+  · rw [h0]
+    simp only
+    rcases stop_cases h1 h2 with rfl | rfl | ha
+    · simp [wellformedAux, okRest, wellformed, wf_zero true false]
+    · simp [wellformedAux, okRest]; decide
+    · simp [wellformedAux, okRest, isAlpha_ne_open ha, isAlpha_ne_close ha, ha]
+
+theorem wf_closed1 (s pre : Str) (delim : Option Str) (post : Str) :
+    wellformedAux 1 false false s = okRest (closed1 s pre delim post) := by
+  have h := wf_verbatim 0 false false s
+  simp only [if_true] at h
+  rw [h]
+  unfold closed1
+  rcases verbatim_stop 0 s with h0 | ⟨c, r, h0, h1, h2⟩
+  · rw [h0]; simp [wellformedAux, okRest]
+  · rw [h0]
+    simp only
+    rcases stop_cases h1 h2 with rfl | rfl | ha
+    · simp [wellformedAux, okRest, wellformed]
+    · have : isAlpha '_' = false := by decide
+      simp [wellformedAux, okRest, this]
+    · simp only [wellformedAux, isAlpha_ne_open ha, isAlpha_ne_close ha, ha, if_false, and_self,
+        if_true, Bool.false_or, Bool.not_false, Bool.true_and, formatCharsOk_eq]
+      cases hl : legalLetters (List.takeWhile isAlpha (c :: r))
+      · simp [okRest]
+      · simp only [Bool.true_and, Bool.not_true, Bool.false_eq_true, if_false]
+        have e : r = (r.takeWhile isAlpha) ++ (c :: r).dropWhile isAlpha := by
+          simp [ha]
+        have hw : wellformedAux 1 true true r =
+            wellformedAux 1 true true ((c :: r).dropWhile isAlpha) := by
+          conv => lhs; rw [e]
+          exact wf_letters _ _ (fun x hx => mem_takeWhile hx)
+        rw [hw]
+        have hhead : ∀ a x, (c :: r).dropWhile isAlpha = a :: x → isAlpha a = false := by
+          intro a x hax
+          exact dropWhile_head hax
+        generalize (c :: r).dropWhile isAlpha = s2 at hhead
+        rcases s2 with _ | ⟨a, x⟩
+        · simp [wellformedAux, okRest]
+        · by_cases hao : a = '{'
+          · subst hao
+            simp only [wellformedAux, if_true]
+            have hv := wf_verbatim 1 true false x
+            simp only [Nat.add_one_ne_zero, if_false] at hv
+            simp only [Nat.reduceAdd, Nat.one_ne_zero, ne_eq, not_false_eq_true, decide_true, Bool.true_and]
+            rw [hv, verbatim_takeBraced]
+            cases hb : takeBraced 0 x with
+            | none => simp [wellformedAux, okRest]
+            | some p =>
+              obtain ⟨g, y⟩ := p
+              simp only
+              have h2 := wf_verbatim 0 true false y
+              simp only [if_true] at h2
+              rw [← h2]
+              exact wf_closed2 _ _ _ _ _
+          · rw [wf_prev (fun a' x' h' => by cases h'; exact hhead a x rfl)]
+            split
+            · rename_i h'; cases h'
+            · rename_i h'; cases h'; exact absurd rfl hao
+            · exact wf_closed2 _ _ _ _ _
+
+theorem okRest_wellformed (s : Str) :
+    wellformed s = match parseFormat s with | .ok _ => true | .error _ => false := by
+  induction s using parseFormat_induct with
+  | nil => rfl
+  | close r => rw [parseFormat_close]; simp [wellformed, wellformedAux]
+  | openErr r e he =>
+    rw [parseFormat_open, he]
+    simp only [wellformed, wellformedAux, if_true]
+    have := wf_closed1 r [] none []
+    simp only [he, okRest] at this
+    simpa using this
+  | openOk r p rest hc ih =>
+    rw [parseFormat_open, hc]
+    simp only [wellformed, wellformedAux, if_true]
+    have := wf_closed1 r [] none []
+    simp only [hc, okRest] at this
+    simp only [ne_eq, not_true_eq_false, decide_false, Bool.false_and, Nat.zero_add]
+    rw [this, ih]
+    cases parseFormat rest <;> rfl
+  | text c r h1 h2 ih =>
+    rw [parseFormat_text _ _ h1 h2]
+    have e : c :: r = (c :: r.takeWhile notBrace) ++ r.dropWhile notBrace := by simp
+    have hw : wellformed (c :: r) = wellformed (r.dropWhile notBrace) := by
+      rw [e]
+      generalize hl : c :: r.takeWhile notBrace = l
+      have hl' : ∀ x ∈ l, x ≠ '{' ∧ x ≠ '}' := by
+        intro x hx
+        rw [← hl] at hx
+        rcases List.mem_cons.1 hx with rfl | hx
+        · exact ⟨h1, h2⟩
+        · simpa [notBrace] using mem_takeWhile hx
+      clear hl e
+      induction l with
+      | nil => rfl
+      | cons a l ihl =>
+        have ha := hl' a (by simp)
+        simp only [wellformed, List.cons_append, wellformedAux, ha.1, ha.2, if_false,
+          Nat.zero_ne_one, false_and]
+        exact ihl (fun x hx => hl' x (by simp [hx]))
+    rw [hw, ih]
+    cases parseFormat (r.dropWhile notBrace) <;> rfl
+
+/-! ### the parser against the reference grammar `Spec.NameFormat.parse` -/
+
+def toSpecPart (pre : Str) (fc : Option Str) (delim : Option Str) (post : Str) : Option Part :=
+  match fc with
+  | none => some ⟨pre, none, delim, post⟩
+  | some run => (decodeLetters run).map fun l => ⟨pre, some l, delim, post⟩
+
+def toSpecPieces : List FmtPart → Option (List Piece)
+  | [] => some []
+  | .text t :: r => (toSpecPieces r).map fun ps => t.map Piece.ch ++ ps
+  | .part pre fc delim post :: r =>
+    (toSpecPart pre fc delim post).bind fun p => (toSpecPieces r).map fun ps => Piece.part p :: ps
+
+/-- the parser's result on one part, read as a reference part -/
+def toSpecRes : Except FmtErr (FmtPart × Str) → Option (Part × Str)
+  | .ok (.part pre fc delim post, rest) => (toSpecPart pre fc delim post).map fun p => (p, rest)
+  | _ => none
+
+theorem ofLetter_isSome (a : Char) :
+    (Slot.ofLetter a).isSome = (a = 'f' || a = 'l' || a = 'v' || a = 'j') := by
+  unfold Slot.ofLetter
+  by_cases h1 : a = 'f'
+  · simp [h1]
+  · by_cases h2 : a = 'v'
+    · simp [h2]
+    · by_cases h3 : a = 'l'
+      · simp [h3]
+      · by_cases h4 : a = 'j' <;> simp [h1, h2, h3, h4]
+
+theorem decodeLetters_isSome (run : Str) : (decodeLetters run).isSome = formatCharsOk false run := by
+  unfold decodeLetters formatCharsOk
+  generalize lower run = v
+  match v with
+  | [] => rfl
+  | [a] => simp [ofLetter_isSome]
+  | [a, b] =>
+    have : [a, b].getLast? = some b := by simp
+    simp only [List.length_cons, List.length_nil, List.head?_cons, this]
+    by_cases hab : a = b
+    · subst hab; simp [ofLetter_isSome]
+    · simp [hab]
+  | a :: b :: c :: r => simp
+
+theorem toSpecRes_closed2 (s pre run : Str) (sep : Option Str) (l : Letters)
+    (hl : decodeLetters run = some l) :
+    toSpecRes (closed2 s pre run sep []) =
+      match (verbatim 0 s).2 with
+      | '}' :: rest => some (⟨pre, some l, sep, (verbatim 0 s).1⟩, rest)
+      | _ => none := by
+  unfold closed2
+  rcases verbatim_stop 0 s with h0 | ⟨c, r, h0, h1, h2⟩
+  · rw [h0]; rfl
+  · rw [h0]
+    by_cases hc : c = '}'
+    · subst hc; simp [toSpecRes, toSpecPart, hl]
+    · simp only [hc, if_false]
+      have : toSpecRes (if isAlpha c = true then Except.error FmtErr.illegalLetters
+          else Except.error FmtErr.tokenRequired) = none := by split <;> rfl
+      rw [this]
+      split
+      · rename_i h; cases h; exact absurd rfl hc
+      · rfl
+
+theorem parsePart_eq (s : Str) : parsePart s = toSpecRes (closed1 s [] none []) := by
+  unfold parsePart closed1
+  rcases hv : verbatim 0 s with ⟨pre, s1⟩
+  have hstop := verbatim_stop 0 s
+  rw [hv] at hstop
+  simp only [List.nil_append] at hstop ⊢
+  rcases hstop with h0 | ⟨c, r, h0, h1, h2⟩
+  · subst h0; rfl
+  · subst h0
+    simp only
+    rcases stop_cases h1 h2 with rfl | rfl | ha
+    · simp [toSpecRes, toSpecPart]
+    · have : isAlpha '_' = false := by decide
+      simp [this, toSpecRes]
+    · simp only [isAlpha_ne_close ha, if_false, ha, if_true]
+      cases hd : decodeLetters (List.takeWhile isAlpha (c :: r)) with
+      | none =>
+        have : formatCharsOk false (List.takeWhile isAlpha (c :: r)) = false := by
+          rw [← decodeLetters_isSome, hd]; rfl
+        simp [this, toSpecRes]
+      | some l =>
+        have : formatCharsOk false (List.takeWhile isAlpha (c :: r)) = true := by
+          rw [← decodeLetters_isSome, hd]; rfl
+        simp only [this, Bool.not_true, Bool.false_eq_true, if_false]
+        have hhead : ∀ a x, (c :: r).dropWhile isAlpha = a :: x → isAlpha a = false :=
+          fun a x hax => dropWhile_head hax
+        generalize (c :: r).dropWhile isAlpha = s2 at hhead
+        rcases s2 with _ | ⟨a, x⟩
+        · simp [verbatim_nil, toSpecRes]
+        · by_cases hao : a = '{'
+          · subst hao
+            simp only [group_eq_takeBraced]
+            cases hb : takeBraced 0 x with
+            | none => simp [toSpecRes]
+            | some p =>
+              obtain ⟨g, y⟩ := p
+              simp only [Option.map_some]
+              rw [toSpecRes_closed2 _ _ _ _ l hd]
+              rcases verbatim 0 y with ⟨post, s4⟩
+              simp only
+              split
+              · rfl
+              · rename_i hne
+                split
+                · exact absurd rfl (hne _)
+                · rfl
+          · split
+            · rename_i heq
+              split at heq
+              · rename_i h; cases h; exact absurd rfl hao
+              · cases heq
+            · rename_i sep s3 heq
+              split at heq
+              · rename_i h; cases h; exact absurd rfl hao
+              · cases heq
+                generalize hR : toSpecRes _ = R
+                split at hR
+                · rename_i h; cases h
+                · rename_i h; cases h; exact absurd rfl hao
+                · rw [toSpecRes_closed2 _ _ _ _ l hd] at hR
+                  subst hR
+                  rcases verbatim 0 (a :: x) with ⟨post, s4⟩
+                  simp only
+                  split
+                  · rfl
+                  · rename_i hne
+                    split
+                    · exact absurd rfl (hne _)
+                    · rfl
+
+theorem parse_nil : parse [] = some [] := by rw [parse]
+
+theorem parse_open (r : Str) :
+    parse ('{' :: r) =
+      match parsePart r with
+      | none => none
+      | some (p, rest) => (parse rest).map fun ps => Piece.part p :: ps := by
+  rw [parse]
+  simp only [if_true]
+  split <;> simp_all
+
+theorem parse_close (r : Str) : parse ('}' :: r) = none := by
+  rw [parse]; simp
+
+theorem parse_text (c : Char) (r : Str) (h1 : c ≠ '{') (h2 : c ≠ '}') :
+    parse (c :: r) = (parse r).map fun ps => Piece.ch c :: ps := by
+  rw [parse]; simp [h1, h2]
+
+theorem parse_text_append (l r : Str) (h : ∀ c ∈ l, c ≠ '{' ∧ c ≠ '}') :
+    parse (l ++ r) = (parse r).map fun ps => l.map Piece.ch ++ ps := by
+  induction l with
+  | nil => simp
+  | cons c l ih =>
+    have hc := h c (by simp)
+    rw [List.cons_append, parse_text _ _ hc.1 hc.2, ih (fun x hx => h x (by simp [hx]))]
+    cases parse r <;> simp
+
+/-- the reference grammar accepts exactly what the parser accepts, with the same reading -/
+theorem parse_eq (s : Str) :
+    parse s = match parseFormat s with
+      | .ok ps => toSpecPieces ps
+      | .error _ => none := by
+  induction s using parseFormat_induct with
+  | nil => rw [parse_nil, parseFormat_nil]; rfl
+  | close r => rw [parse_close, parseFormat_close]
+  | openErr r e he => rw [parse_open, parseFormat_open, parsePart_eq, he]; rfl
+  | openOk r p rest hc ih =>
+    rw [parse_open, parseFormat_open, parsePart_eq, hc]
+    obtain ⟨_, _, a, b, c, d, rfl⟩ := closed1_ok hc
+    simp only [toSpecRes]
+    cases hp : toSpecPart a b c d with
+    | none =>
+      cases parseFormat rest with
+      | error e => simp
+      | ok ps => simp [toSpecPieces, hp]
+    | some sp =>
+      simp only [Option.map_some, ih]
+      cases parseFormat rest with
+      | error e => simp
+      | ok ps => simp [toSpecPieces, hp]
+  | text c r h1 h2 ih =>
+    rw [parseFormat_text _ _ h1 h2]
+    have e : c :: r = (c :: r.takeWhile notBrace) ++ r.dropWhile notBrace := by simp
+    have hl' : ∀ x ∈ c :: r.takeWhile notBrace, x ≠ '{' ∧ x ≠ '}' := by
+      intro x hx
+      rcases List.mem_cons.1 hx with rfl | hx
+      · exact ⟨h1, h2⟩
+      · simpa [notBrace] using mem_takeWhile hx
+    rw [e, parse_text_append _ _ hl', ih]
+    cases parseFormat (r.dropWhile notBrace) with
+    | error e => simp
+    | ok ps => simp [toSpecPieces]
+
 end NameFormat
 end Pybtex
